@@ -46,10 +46,21 @@ def header(mtype, length, version=VERSION, flags=0):
     return struct.pack("<BBHI", version & 0xFF, mtype & 0xFF, flags & 0xFFFF, length & 0xFFFFFFFF)
 
 
+def _daemon_gone(vmd_dir):
+    """The pid file is missing or names a process that no longer exists (the socket file may well remain)."""
+    try:
+        with open(pid_path(vmd_dir)) as f:
+            return not pid_alive(int(f.read().strip() or 0))
+    except (OSError, ValueError):
+        return True
+
+
 def connect(vmd_dir, timeout=20.0):
-    """Connect to the daemon's socket; retries ECONNREFUSED/ENOENT/EAGAIN for a short while (listen backlog is 16)."""
+    """Connect to the daemon's socket.  EAGAIN (listen backlog of 16 is full) is retried until `timeout`;
+    ECONNREFUSED / ENOENT are retried only while the pid file names a living process (fail fast on a dead daemon)."""
     deadline = time.monotonic() + timeout
     delay = 0.002
+    refused = 0
     while True:
         s = socket.socket(socket.AF_UNIX, socket.SOCK_STREAM)
         try:
@@ -58,6 +69,10 @@ def connect(vmd_dir, timeout=20.0):
             return s
         except (ConnectionRefusedError, FileNotFoundError, BlockingIOError, socket.timeout, InterruptedError) as ex:
             s.close()
+            if isinstance(ex, (ConnectionRefusedError, FileNotFoundError)):
+                refused += 1
+                if refused >= 3 and _daemon_gone(vmd_dir):
+                    raise ConnectionError("daemon gone (%s): %s" % (sock_path(vmd_dir), ex))
             if time.monotonic() + delay >= deadline:
                 raise ConnectionError("cannot connect to %s: %s" % (sock_path(vmd_dir), ex))
             time.sleep(delay)
@@ -500,11 +515,14 @@ def misbehave(vmd_dir, kind, blob, rng, timeout=30.0, n_bytes=None):
         elif kind == "unknown_type_payload":
             if _send(s, header(0x77, 64) + bytes(64), rep):
                 read_reply(s, timeout, rep=rep)
-        elif kind == "len_over_max":
-            if _send(s, header(LOAD_EXEC, MAX_PAYLOAD + 1), rep):
-                read_reply(s, timeout, rep=rep)
-        elif kind == "len_huge":
-            if _send(s, header(LOAD_EXEC, 0xFFFFFFF0) + blob[:64], rep):
+        elif kind in ("len_over_max", "len_huge"):
+            # announce more than the server accepts, send a little / nothing, finish our side, listen
+            n = MAX_PAYLOAD + 1 if kind == "len_over_max" else 0xFFFFFFF0
+            if _send(s, header(LOAD_EXEC, n) + (blob[:64] if kind == "len_huge" else b""), rep):
+                try:
+                    s.shutdown(socket.SHUT_WR)
+                except OSError:
+                    pass
                 read_reply(s, timeout, rep=rep)
         elif kind == "len_zero":
             if _send(s, header(LOAD_EXEC, 0), rep):
@@ -581,6 +599,48 @@ def pid_alive(pid):
         return False
 
 
+def _group_alive(pgid):
+    try:
+        os.killpg(pgid, 0)
+        return True
+    except OSError:
+        return False
+
+
+def proc_cpu_and_states(pid):
+    """(utime+stime clock ticks summed over all threads, string of thread states) or None if the process is gone."""
+    total = 0
+    states = ""
+    try:
+        tids = os.listdir("/proc/%d/task" % pid)
+    except OSError:
+        return None
+    for t in tids:
+        try:
+            with open("/proc/%d/task/%s/stat" % (pid, t)) as f:
+                st = f.read()
+            rest = st[st.rindex(")") + 2:].split()
+            states += rest[0]
+            total += int(rest[11]) + int(rest[12])
+        except (OSError, ValueError, IndexError):
+            pass
+    return total, states
+
+
+def proc_idle(pid, interval=2.0, samples=4):
+    """True if during `interval` seconds the process consumed no CPU time at all and each of its threads was seen
+    sleeping (state S) in every sample: it is waiting for input, not slow, not starved of CPU (that would be R/D)."""
+    first = proc_cpu_and_states(pid)
+    if first is None:
+        return False
+    for _ in range(samples):
+        time.sleep(interval / samples)
+        cur = proc_cpu_and_states(pid)
+        if cur is None or cur[0] != first[0] or set(cur[1]) - {"S"} or set(first[1]) - {"S"}:
+            return False
+    return True
+
+
 class Daemon:
     """A private nano_vmd in the foreground.  Socket and pid file live in `vmd_dir` (NLVERIF_VMD_DIR, hook H3).
     Started in its own session / process group; stop() kills the group and whatever pid the pid file names
@@ -613,6 +673,7 @@ class Daemon:
             except OSError:
                 pass
         lf = open(self.log, "ab")
+        self.log_start = lf.tell()                 # this instance's part of the (appended) stderr file starts here
         try:
             self.proc = subprocess.Popen([self.binary] + self.args, env=self.env(), stdin=subprocess.DEVNULL,
                                          stdout=lf, stderr=lf, start_new_session=True, cwd=self.vmd_dir)
@@ -630,6 +691,15 @@ class Daemon:
                     return True
             time.sleep(0.01)
         return False
+
+    def stderr_text(self, limit=4000):
+        """stderr/stdout of the current (or last) daemon instance only."""
+        try:
+            with open(self.log, "rb") as f:
+                f.seek(getattr(self, "log_start", 0))
+                return f.read()[-limit:].decode("utf-8", "replace")
+        except OSError:
+            return ""
 
     @property
     def pid(self):
@@ -684,8 +754,9 @@ class Daemon:
             except subprocess.TimeoutExpired:
                 pass
             self.proc = None
-        deadline = time.monotonic() + 5
-        while time.monotonic() < deadline and any(pid_alive(p) for p in victims):
+        # wait until nothing of the daemon's process group is left (forked co-process launchers included)
+        deadline = time.monotonic() + 10
+        while time.monotonic() < deadline and (any(pid_alive(p) for p in victims) or any(_group_alive(p) for p in victims)):
             time.sleep(0.01)
 
     def __enter__(self):
